@@ -3,6 +3,7 @@ package verifh
 import (
 	"bytes"
 	"fmt"
+	"math/big"
 	"strings"
 
 	"github.com/creachadair/jrpc2/channel"
@@ -167,6 +168,23 @@ func scenarioC12(r *Run) {
 		}
 	case 5:
 		h := strings.ReplaceAll(advHeaders[g.Int("advheader", len(advHeaders))], "%M", fs.Mime)
+		if g.Chance("boundarylength", 0.35) {
+			// a declared length around a power-of-two boundary, or a long digit string
+			var n big.Int
+			if g.Chance("digitstring", 0.3) {
+				digits := 1 + g.Int("ndigits", 25)
+				var sb strings.Builder
+				for i := 0; i < digits; i++ {
+					sb.WriteByte(byte('0' + g.Int("digit", 10)))
+				}
+				n.SetString(sb.String(), 10)
+			} else {
+				k := []uint{7, 15, 16, 31, 32, 53, 62, 63, 64, 65, 127}[g.Int("pow", 11)]
+				n.Lsh(big.NewInt(1), k)
+				n.Add(&n, big.NewInt(int64(g.Int("delta", 5)-2)))
+			}
+			h = fmt.Sprintf("Content-Length: %s\r\nContent-Type: %s\r\n\r\nabc", n.String(), fs.Mime)
+		}
 		if strings.Contains(h, "%L") {
 			h = strings.ReplaceAll(h, "%L", strings.Repeat("x", []int{10, 3000, 4090, 5000}[g.Int("longfield", 4)]))
 		}
